@@ -14,6 +14,16 @@ pub mod object;
 
 pub struct RawUnprocessedJSONArray;
 impl RawUnprocessedJSONArray {
+    // the array is read byte by byte: a byte of a multi-byte character is not a character on its own
+    fn read_utf8(bytes: Vec<u8>) -> Result<String, String> {
+        let boxed_string = String::from_utf8(bytes);
+        if boxed_string.is_err() {
+            let message = format!("unable to read character: {}", boxed_string.err().unwrap());
+            return Err(message);
+        }
+        Ok(boxed_string.unwrap())
+    }
+
     pub fn split_into_vector_of_strings(_json_string: String) -> Result<Vec<String>, String> {
         let mut list : Vec<String> = vec![];
 
@@ -49,7 +59,7 @@ impl RawUnprocessedJSONArray {
                 let message = format!("not proper start of the json array: {}", _json_string.to_string());
                 return Err(message);
             }
-            let char = String::from_utf8(char_buffer).unwrap().chars().last().unwrap();
+            let char = RawUnprocessedJSONArray::read_utf8(char_buffer)?.chars().last().unwrap();
 
             if !char.is_whitespace() && char != '['{
                 let message = format!("input string does not start with opening square bracket: {} in {}", char, _json_string);
@@ -77,7 +87,7 @@ impl RawUnprocessedJSONArray {
             }
             boxed_read.unwrap();
             bytes_read = bytes_read + length as i128;
-            let mut char = String::from_utf8(char_buffer).unwrap().chars().last().unwrap();
+            let mut char = RawUnprocessedJSONArray::read_utf8(char_buffer)?.chars().last().unwrap();
 
             if char == ']' {
                 is_end_of_array = true;
@@ -101,7 +111,7 @@ impl RawUnprocessedJSONArray {
                         boxed_read.unwrap();
                         let length = char_buffer.len();
                         bytes_read = bytes_read + length as i128;
-                        let _char = String::from_utf8(char_buffer).unwrap();
+                        let _char = RawUnprocessedJSONArray::read_utf8(char_buffer)?;
                         let last_char_in_buffer = token.chars().last().unwrap().to_string();
                         not_end_of_string_property_value = _char != "\"" && last_char_in_buffer != "\\";
                         token = [token, _char.to_string()].join(SYMBOL.empty_string);
@@ -123,7 +133,7 @@ impl RawUnprocessedJSONArray {
                             }
                             boxed_read.unwrap();
                             bytes_read = bytes_read + length as i128;
-                            char = String::from_utf8(char_buffer).unwrap().chars().last().unwrap();
+                            char = RawUnprocessedJSONArray::read_utf8(char_buffer)?.chars().last().unwrap();
 
                             if char == ',' {
                                 read_till_end_of_whitespace = false
@@ -154,7 +164,7 @@ impl RawUnprocessedJSONArray {
                     }
                     boxed_read.unwrap();
                     bytes_read = bytes_read + length as i128;
-                    let remaining_bool = String::from_utf8(char_buffer).unwrap();
+                    let remaining_bool = RawUnprocessedJSONArray::read_utf8(char_buffer)?;
                     if remaining_bool != "ull" {
                         let message = format!("Unable to parse null: {} in {}", remaining_bool, _json_string);
                         return Err(message)
@@ -177,7 +187,7 @@ impl RawUnprocessedJSONArray {
                     }
                     boxed_read.unwrap();
                     bytes_read = bytes_read + length as i128;
-                    let remaining_bool = String::from_utf8(char_buffer).unwrap();
+                    let remaining_bool = RawUnprocessedJSONArray::read_utf8(char_buffer)?;
                     if remaining_bool != "rue" {
                         let message = format!("Unable to parse true: {} in {}", remaining_bool, _json_string);
                         return Err(message)
@@ -200,7 +210,7 @@ impl RawUnprocessedJSONArray {
                     }
                     boxed_read.unwrap();
                     bytes_read = bytes_read + length as i128;
-                    let remaining_bool = String::from_utf8(char_buffer).unwrap();
+                    let remaining_bool = RawUnprocessedJSONArray::read_utf8(char_buffer)?;
                     if remaining_bool != "alse" {
                         let message = format!("Unable to parse false: {} in {}", remaining_bool, _json_string);
                         return Err(message)
@@ -229,7 +239,7 @@ impl RawUnprocessedJSONArray {
                         }
                         boxed_read.unwrap();
                         bytes_read = bytes_read + length as i128;
-                        let char = String::from_utf8(char_buffer).unwrap().chars().last().unwrap();
+                        let char = RawUnprocessedJSONArray::read_utf8(char_buffer)?.chars().last().unwrap();
 
                         let is_open_square_bracket = char == '[';
                         if is_open_square_bracket {
@@ -272,7 +282,7 @@ impl RawUnprocessedJSONArray {
                         }
                         boxed_read.unwrap();
                         bytes_read = bytes_read + length as i128;
-                        let char = String::from_utf8(char_buffer).unwrap().chars().last().unwrap();
+                        let char = RawUnprocessedJSONArray::read_utf8(char_buffer)?.chars().last().unwrap();
 
                         let is_open_curly_brace = char == '{';
                         if is_open_curly_brace {
@@ -334,7 +344,7 @@ impl RawUnprocessedJSONArray {
                         }
                         boxed_read.unwrap();
                         bytes_read = bytes_read + length as i128;
-                        char = String::from_utf8(char_buffer).unwrap().chars().last().unwrap();
+                        char = RawUnprocessedJSONArray::read_utf8(char_buffer)?.chars().last().unwrap();
 
                         let is_numeric = char.is_numeric();
 
@@ -381,7 +391,7 @@ impl RawUnprocessedJSONArray {
                                 }
                                 boxed_read.unwrap();
                                 bytes_read = bytes_read + length as i128;
-                                char = String::from_utf8(char_buffer).unwrap().chars().last().unwrap();
+                                char = RawUnprocessedJSONArray::read_utf8(char_buffer)?.chars().last().unwrap();
 
                                 if char == ',' {
                                     read_till_end_of_whitespace = false
@@ -457,7 +467,7 @@ impl RawUnprocessedJSONArray {
             }
             boxed_read.unwrap();
             bytes_read = bytes_read + length as i128;
-            let char = String::from_utf8(char_buffer).unwrap().chars().last().unwrap();
+            let char = RawUnprocessedJSONArray::read_utf8(char_buffer)?.chars().last().unwrap();
 
             if !char.is_whitespace(){
                 let message = format!("after array there are some characters: {} in {}", char, _json_string);
